@@ -205,4 +205,37 @@ Proof.
       unfold end_valueB. apply Q_cmin; [apply rows_Q|apply cols_Q]. }
     destruct (cltb a c); apply Hfin; exact HQ.
 Qed.
+
+(* the Euclidean twin: same scans, no sqrt pass *)
+Theorem tail_value_B_eu (p1e p2e : nat) :
+  k_wtail_eu shiftz true false l1 l2 W wl B (Z.of_nat p1e) (Z.of_nat p2e) true wps
+  = (RPlain (bounded B (end_valueB p1e p2e)), wps, true).
+Proof.
+  assert (Hfin : forall v : cost, Qb v (end_valueB p1e p2e) ->
+     (let rvalue := (if cltb B v then Inf else v) in (RPlain rvalue, wps, true)) = (RPlain (bounded B (end_valueB p1e p2e)), wps, true)).
+  { intros v Hv. change (cltb B v) with (negb (cleb v B)). rewrite (Q_bounded B v _ Hv). reflexivity. }
+  unfold k_wtail_eu. cbv zeta. cbn [andb].
+  change c_dtw_warping_paths_ndim_euclidean_loop26 with c_dtw_warping_paths_ndim_loop26.
+  change c_dtw_warping_paths_ndim_euclidean_loop27 with c_dtw_warping_paths_ndim_loop27.
+  destruct (Z.eqb_spec (Z.of_nat p1e) 0) as [E1|E1]; destruct (Z.eqb_spec (Z.of_nat p2e) 0) as [E2|E2]; cbn [andb negb].
+  - destruct corner_Q as [Hv Hi]. rewrite Hi. cbn [andb]. apply Hfin.
+    unfold end_valueB. replace p1e with 0%nat by lia. replace p2e with 0%nat by lia. rewrite end_rows_0, end_cols_0.
+    replace (cmin (M l1n l2n) (M l1n l2n)) with (M l1n l2n) by (unfold cmin; destruct (cleb (M l1n l2n) (M l1n l2n)); reflexivity). exact Hv.
+  - destruct (col_scan_B p2e l2) as (rel & b & E). rewrite E. rewrite cltb_inf_l. apply Hfin.
+    unfold end_valueB. replace p1e with 0%nat by lia. rewrite end_rows_0, end_cols_le. apply cols_Q.
+  - destruct (row_scan_B p1e l1) as (rel & b & E). rewrite E.
+    assert (HQ : Qb (cmin_list (map (fun k => rdcol (l1n - k)) (seq 0 (S (Nat.min p1e (l1n - 1)))))) (end_valueB p1e p2e)).
+    { unfold end_valueB. replace p2e with 0%nat by lia. rewrite end_cols_0, cmin_comm, end_rows_le. apply rows_Q. }
+    set (a := cmin_list (map (fun k => rdcol (l1n - k)) (seq 0 (S (Nat.min p1e (l1n - 1)))))) in *.
+    destruct (cltb a Inf) eqn:Ec; [apply Hfin; exact HQ|].
+    assert (Ea : a = Inf) by (destruct a; [discriminate Ec|reflexivity]). rewrite Ea in HQ. apply Hfin. exact HQ.
+  - destruct (row_scan_B p1e l1) as (rel & b & E). rewrite E.
+    destruct (col_scan_B p2e l2) as (rel' & b' & E'). rewrite E'.
+    set (a := cmin_list (map (fun k => rdcol (l1n - k)) (seq 0 (S (Nat.min p1e (l1n - 1)))))).
+    set (c := cmin_list (map (fun k => rdrow (l2n - k)) (seq 0 (S (Nat.min p2e (l2n - 1)))))).
+    assert (HQ : Qb (if cltb a c then a else c) (end_valueB p1e p2e)).
+    { replace (if cltb a c then a else c) with (cmin a c) by (rewrite (cmin_comm a c); symmetry; apply cmin_if).
+      unfold end_valueB. apply Q_cmin; [apply rows_Q|apply cols_Q]. }
+    destruct (cltb a c); apply Hfin; exact HQ.
+Qed.
 End ValueB.
